@@ -154,6 +154,7 @@ Proof.
   - exact I.
   - exact I.
   - apply assign_spec. exact I.
+  - destruct (resp_cc_get st) as [st0 p0]. destruct (resp_cc_get st0) as [st1 p]. cbn [fst inv r_obj]. right. reflexivity.
   - apply assign_spec. exact I.
 Qed.
 
